@@ -225,9 +225,15 @@ def explore(ctx: Ctx):
     for _ in range(40 * n):
         if extra >= max(4, n // 8):
             break
-        d = gen.gen_sge(r_mask, {'p_bg': 1.0, 'p_mask': 1.0, 'n_bg': [3, 4, 5], 'max_bg': 6, 'p_custom': 0.3, 'p_pam': 0.5, 'p_gtf': 0.8, 'p_table': 0.0,
+        d = gen.gen_sge(r_mask, {'p_bg': 1.0, 'p_mask': 0.0, 'n_bg': [3, 4, 5], 'max_bg': 6, 'p_custom': 0.3, 'p_pam': 0.5, 'p_gtf': 0.8, 'p_table': 0.0,
                                  'bg_kinds': ['snv', 'snv', 'ins', 'del'], 'n_targetons': r_mask.choice([1, 2])})
-        if len(d.get('bg') or []) >= 3 and d.get('mask'):
+        if len(d.get('bg') or []) >= 3:
+            # the mask over the variant with the lowest position, and (below) one presentation that lists the records in descending order: the
+            # masked record then comes after records that lie beyond its interval
+            v0 = min(d['bg'], key=lambda r: r['pos'])
+            s0 = v0['pos'] - 1 + (1 if len(v0['ref']) != len(v0['alts'][0]) else 0)
+            d['mask'] = [[d['contig'], s0, s0 + 1]]
+            d['_bg_desc'] = True
             designs.append(d)
             extra += 1
     # ... and a class whose custom VCF names its records by a multi-valued INFO tag (Number=.) carrying two or three values
@@ -252,6 +258,11 @@ def explore(ctx: Ctx):
         for s in seeds:
             jobs.append((d, 'subproc', {'PYTHONHASHSEED': s}))
             index.append((i, 'hashseed=' + s, None))
+        if d.get('_bg_desc'):
+            v = copy.deepcopy(d)
+            v['bg'] = sorted(v['bg'], key=lambda r: -r['pos'])
+            jobs.append((v, 'inproc', None))
+            index.append((i, 'presentation', v))
         vr = random.Random(f'{ctx.seed}:{i}')
         for k in range(ctx.n(4, 6)):
             v, what = variant_of(d, vr)
